@@ -539,6 +539,8 @@ def feat_c14(tok):
             if int(rest[3]) >= 2: tworun = True
             if int(rest[1]) >= 1: queued = True
         return ("k1:" + " ".join(cfg) + "#" + ";".join(acts)) if (tworun and queued) else None
+    if tok[0] == "F" and tok[1] == "c14_wait_order":
+        return "waitorder:" + tok[2]
     if tok[0] == "F":
         args = body[:body.index("|")]
         if len(set(args)) > 1: return "burst:" + " ".join(args)
@@ -557,10 +559,13 @@ PROPS["C14"] = dict(
                "user functions terminate and do not panic; results modelled as call ids.",
     rule="C14K1: 2-6 caller goroutines x 1-3 ops (Call k, k in 1..5 random/uniform/decreasing/increasing; Wait; Count; Call 0), functions gated, 1-3 simultaneous "
          "actions per step, quiescence after each; observation must be reachable in the model by some interleaving; monitors strand/bound/twice/leftover. C14K2: "
-         "bursts of 6-35 concurrent Calls, monitors + F record vs model terminal state. non-trivial = K1 case with >= 2 functions running and a non-empty queue at "
+         "bursts of 6-35 concurrent Calls, monitors + F record vs model terminal state. C14L: lock-queue choreography on Workers.mutex forcing "
+         "worker-exit < Call < woken Wait (starvation-mode FIFO hand-off verified from the mutex word); Wait must not have returned while the new worker's "
+         "function is held; reported only if 3/3 repetitions with verified order agree; F record vs the model run for that order. non-trivial = K1 case with >= 2 functions running and a non-empty queue at "
          "quiescent points (distinct by program + action sequence), or a burst with >= 2 different counts",
     stages=[corr_stage("C14K1", 250, 2500, feature=feat_c14, seeds=3),
-            corr_stage("C14K2", 400, 2000, feature=feat_c14, seeds=3)],
+            corr_stage("C14K2", 400, 2000, feature=feat_c14, seeds=3),
+            corr_stage("C14L", 40, 400, feature=feat_c14, seeds=3)],
 )
 
 # ---------------------------------------------------------------------------------------------------------------
